@@ -85,16 +85,16 @@ def evaluate(cases):
     runs = []
     reqs = []
     for case in cases:
-        cps, stopped, _run = run_case(case)
-        runs.append((case, cps, stopped))
+        cps, stopped, run = run_case(case)
+        runs.append((case, cps, stopped, run.steps))
         reqs += [('c16', cp['req']) for cp in cps]
     answers = common.batch_driver(reqs) if reqs else []
     out = []
     pos = 0
-    for case, cps, stopped in runs:
+    for case, cps, stopped, steps in runs:
         ans = answers[pos:pos + len(cps)]
         pos += len(cps)
-        out.append((case, cps, stopped, judge(case, cps, ans)))
+        out.append((case, cps, stopped, judge(case, cps, ans), steps))
     return out
 
 
@@ -131,7 +131,7 @@ def corpus_cases():
 def account(cases):
     ex = Exploration()
     st = ex.stats
-    for case, cps, stopped, fails in evaluate(cases):
+    for case, cps, stopped, fails, run_steps in evaluate(cases):
         ex.evaluations += 1
         ex.traces_validated += len(cps)
         if nontrivial(case, cps):
@@ -160,8 +160,12 @@ def account(cases):
         for o, v in case['opts'].items():
             if v:
                 st['options'][o] = st['options'].get(o, 0) + 1
-        if case['enum']:
-            st['options']['enum_states'] = st['options'].get('enum_states', 0) + 1
+        for o, v in (('enum_states', case['enum']), ('queued', case.get('queued')), ('retrigger_callbacks', case.get('retrig'))):
+            if v:
+                st['options'][o] = st['options'].get(o, 0) + 1
+        if any(s[0] == 'begin' and k + 1 < len(ss) and ss[k + 1][0] == 'begin'
+               for ss in run_steps.values() for k, s in enumerate(ss)):
+            st['options']['nested_event_executed'] = st['options'].get('nested_event_executed', 0) + 1
         st.setdefault('oracle_signatures', {})
         for f in fails:
             s = f.signature or f.what
@@ -174,6 +178,20 @@ def shrink_steps(case):
     for i in reversed(range(len(case['ops']))):
         c = copy.deepcopy(case)
         del c['ops'][i]
+        yield c
+    for k, op in enumerate(case['ops']):
+        if op[0] == 'add_states' and len(op[1]) > 1:
+            for j in range(len(op[1])):
+                c = copy.deepcopy(case)
+                del c['ops'][k][1][j]
+                yield c
+    for cb in list(case.get('retrig', {})):
+        c = copy.deepcopy(case)
+        del c['retrig'][cb]
+        yield c
+    if case.get('queued'):
+        c = copy.deepcopy(case)
+        c['queued'] = False
         yield c
     if case['n_models'] > 1:
         c = copy.deepcopy(case)
@@ -225,7 +243,7 @@ class C16(runner.Check):
     level = 'proof'
     theorems = ('TM.C16_states_once_nested', 'TM.C16_states_once_flat', 'TM.C16_edges_exact',
                 'TM.C16_edges_present', 'TM.C16_elements_cover', 'TM.C16_final_initial_marked',
-                'TM.C16_final_marked_flat', 'TM.C16_activity', 'TM.C16_activity_previous',
+                'TM.C16_final_marked_flat', 'TM.C16_activity', 'TM.C16_activity_current', 'TM.C16_activity_previous',
                 'TM.C16_roi', 'TM.C16_roi_defined', 'TM.C16_regenerated')
     manifest = dict(
         level='proof', design='DESIGN.md 4/C16 + design_notes/C16.md',
@@ -251,8 +269,10 @@ class C16(runner.Check):
             'GraphMachine / HierarchicalGraphMachine configurations on the Mermaid engine with labels, final flags, '
             'on_enter/on_exit, conditions/unless, internal / reflexive / wildcard / multi-source transitions at the root '
             'and inside compound states, show_conditions / show_auto_transitions / show_state_attributes / '
-            'auto_transitions on and off, 1-2 models, histories of 2-9 operations (trigger incl. auto triggers, '
-            'add_states, add_transition, remove_transition); after construction and after every operation the full and '
+            'auto_transitions on and off, queued and unqueued, 1-2 external model objects, on_enter / transition-after '
+            'callbacks that fire further events on the same model (nested events), histories of 2-9 operations (trigger '
+            'incl. auto triggers, add_states with lists mixing compound definitions, joined parent_child names and plain '
+            'states, add_transition, remove_transition); after construction and after every operation the full and '
             'the region-of-interest diagram of every model are parsed, compared with the Lean model and judged by the '
             'oracle; the regression cases of corpus/C16/ run first. Non-trivial: the model state shown changes during the history (and a compound state exists for '
             'hierarchical cases); distinct = different case description')
@@ -319,7 +339,7 @@ class C16(runner.Check):
         if 'case' not in payload:
             print('no concrete input in this replay file: broken obligation', payload.get('broken_obligation'))
             return 1
-        (case, cps, stopped, fails), = evaluate([payload['case']])
+        (case, cps, stopped, fails, _steps), = evaluate([payload['case']])
         for cp in cps:
             if not cp['roi']:
                 print('--- after op %d, model %d, state %s' % (cp['at'], cp['model'], cp['cur']))
@@ -335,6 +355,10 @@ class C16(runner.Check):
         return [
             'Mermaid backend only: graphviz and pygraphviz are not importable here, so the Graphviz clauses of C16 '
             '(all states styleable) are not decided',
+            'the last executed transition is taken from an independent record: every assignment of the model state '
+            'attribute is logged together with the innermost transition in progress; events are fired re-entrantly from '
+            'on_enter and transition-after callbacks only (an event fired from on_exit makes the engine move the model '
+            'twice; the history is then not `Settled`, see Props/C16.lean)',
             '"current state(s)" = the names in model.state; a compound ancestor of a current state may be styled active '
             'without alarm (the code never does); "the last executed transition" = the last transition that changed '
             'state: internal transitions never touch the graph, so the previous style survives them',
